@@ -282,6 +282,15 @@ class Ctx:
         if self._specdir is None:
             d = os.path.join(self.scratch, "spec")
             shutil.copytree(SPEC, d)
+            sw = tree_switches()
+            subst = {"@SPINS@": "TRUE" if sw["retry_same_spins"] else "FALSE",
+                     "@FORWARDS@": "TRUE" if sw["reprepare_fail_forwards"] else "FALSE"}
+            for f in os.listdir(d):
+                if f.endswith(".cfg"):
+                    t = open(os.path.join(d, f)).read()
+                    for k, v in subst.items():
+                        t = t.replace(k, v)
+                    open(os.path.join(d, f), "w").write(t)
             self._specdir = d
         return self._specdir
 
@@ -475,4 +484,43 @@ def read_ndjson(path):
             line = line.strip()
             if line:
                 out.append(json.loads(line))
+    return out
+
+
+def tree_switches():
+    """Switches that make the specifications describe the *current* tree (DESIGN §8)."""
+    with open(os.path.join(SPEC, "tree_switches.json")) as f:
+        return json.load(f)
+
+
+def validate_trace(ctx, module, events, cfg, name="trace", timeout=1200, cfgfile=None):
+    """Run TLC on Trace<module> over `events` (list of dicts).  Returns dict with keys
+    bad (list of violation records), consumed, total, states, output.  Raises Inconclusive when
+    the log is not consumed completely (spec/harness mismatch, never a verdict)."""
+    d = os.path.join(ctx.scratch, "tv-%s-%d" % (name, len(ctx.tlc_runs)))
+    shutil.copytree(SPEC, d)
+    with open(os.path.join(d, "trace.ndjson"), "w") as f:
+        for e in events:
+            f.write(json.dumps(e) + "\n")
+    with open(os.path.join(d, "trace_cfg.json"), "w") as f:
+        json.dump(cfg, f)
+    res = ctx.tlc(module, cfgfile or (module + ".cfg"), workers=1, timeout=timeout, count=False, name=name, cwd=d, heap="8g")
+    m = None
+    for m in re.finditer(r'<<"VERDICT", (".*")>>', res.output):
+        pass
+    hw = re.search(r'<<"HW", (\d+)>>', res.output)
+    out = {"total": len(events), "states": res.distinct, "consumed": 0, "bad": [], "output": res.output}
+    if m:
+        v = json.loads(json.loads(m.group(1)))
+        out["bad"] = v["bad"]
+        for i, b in enumerate(out["bad"]):
+            if i < len(v.get("at", [])):
+                b["at"] = v["at"][i]
+        out["consumed"] = v["consumed"]
+    else:
+        k = int(hw.group(1)) if hw else 0
+        nxt = events[k - 1] if 0 < k <= len(events) else None
+        tail = "\n".join(res.output.splitlines()[-40:])
+        raise Inconclusive("trace %s not consumed: stopped at event %s of %d: %s\n%s" % (name, k, len(events), nxt, tail))
+    shutil.rmtree(d, ignore_errors=True)
     return out
